@@ -321,6 +321,8 @@ impl TextDiffConfig {
     ) -> TextDiff<'old, 'new, 'bufs, T> {
         let deadline = self.deadline.and_then(|x| x.into_instant());
         let ops = if old.len() > 100 || new.len() > 100 {
+            #[cfg(similar_verif)]
+            crate::verif::hit(24);
             let ih = IdentifyDistinct::<u32>::new(&old[..], 0..old.len(), &new[..], 0..new.len());
             capture_diff_deadline(
                 self.algorithm,
@@ -331,6 +333,8 @@ impl TextDiffConfig {
                 deadline,
             )
         } else {
+            #[cfg(similar_verif)]
+            crate::verif::hit(25);
             capture_diff_deadline(
                 self.algorithm,
                 &old[..],
